@@ -170,33 +170,55 @@ impl<'b, 'tx> Iterator for Cursor<'b, 'tx> {
     type Item = Data<'b, 'tx>;
 
     fn next(&mut self) -> Option<Self::Item> {
-        if self.stack.is_empty() {
-            self.seek_first();
-        } else if self.next_called {
-            loop {
-                {
-                    let b = self.bucket.borrow();
-                    if b.deleted {
-                        panic!("Cannot get data from a deleted bucket.");
-                    }
-                    let elem = self.stack.last_mut().unwrap();
-                    let page_node = b.page_node(elem.id);
-                    if elem.index + 1 >= page_node.len() {
-                        if self.stack.len() == 1 {
-                            return None;
-                        }
-                        self.stack.pop();
-                        continue;
-                    } else {
-                        elem.index += 1;
-                    }
-                }
+        loop {
+            if self.stack.is_empty() {
                 self.seek_first();
-                break;
+            } else if self.next_called {
+                loop {
+                    {
+                        let b = self.bucket.borrow();
+                        if b.deleted {
+                            panic!("Cannot get data from a deleted bucket.");
+                        }
+                        let elem = self.stack.last_mut().unwrap();
+                        let page_node = b.page_node(elem.id);
+                        if elem.index + 1 >= page_node.len() {
+                            if self.stack.len() == 1 {
+                                return None;
+                            }
+                            self.stack.pop();
+                            continue;
+                        } else {
+                            elem.index += 1;
+                        }
+                    }
+                    self.seek_first();
+                    break;
+                }
             }
+            self.next_called = true;
+            // A write transaction can have deleted every key of a leaf that is not the last
+            // one. There is nothing to return from such a leaf, so move on to the next one
+            // instead of ending the iteration early.
+            if self.on_empty_leaf() {
+                continue;
+            }
+            return self.current();
         }
-        self.next_called = true;
-        self.current()
+    }
+}
+
+impl<'b, 'tx> Cursor<'b, 'tx> {
+    // True if the cursor is positioned on a non-root leaf without any entries.
+    fn on_empty_leaf(&self) -> bool {
+        let b = self.bucket.borrow();
+        match self.stack.last() {
+            Some(elem) if self.stack.len() > 1 => {
+                let page_node = b.page_node(elem.id);
+                page_node.leaf() && page_node.len() == 0
+            }
+            _ => false,
+        }
     }
 }
 
